@@ -1,4 +1,6 @@
 SPECIFICATION Spec
+CONSTANTS MODES = {19}
 INVARIANT WellFormed
 INVARIANT Executes
+INVARIANT SpecOK
 CHECK_DEADLOCK FALSE
